@@ -24,6 +24,9 @@ var c17OnlySeq []string
 var c17SpelledVals = []string{"", "1", "01", "+1", "2.5", "2.50", "25e-1", "3"}
 
 func c17SpelledRun(c *core.Ctx) {
+	if c17SkipFamily("spelled") {
+		return
+	}
 	dir := core.Scratch("c17spelled")
 	maxRows := 3
 	if c.Thorough() || c17OnlySeq != nil {
